@@ -7,7 +7,9 @@
 // in the history. A view is a value that lives for a whole history: the calls of a history
 // may each carry their own context scope (wider, narrower, equal, unrelated to the one of
 // the call before), and several views may be alive together over one backend, the calls
-// of the history going to one or the other.
+// of the history going to one or the other. The repository names of the scope entries are
+// not only the names callers use: every pool also holds names that read as something else
+// (wildcards, nothing, dots, the catalog, the prefix itself and names related to it).
 package main
 
 import (
@@ -557,6 +559,18 @@ func runJoin(in input) (string, observed) {
 
 var someDigest = S("sha256:ffffffffffffffffffffffffffffffffffffffffffffffffffffffffffffffff")
 
+// specialScopeNames: repository names for scope entries that read as something else than a
+// plain repository under the view with prefix p: wildcards, nothing, dots, the catalog, the
+// prefix itself, names already under it, starting with it, ending in it, its other case.
+func specialScopeNames(p string) []string {
+	last := p
+	if i := strings.LastIndex(p, "/"); i >= 0 {
+		last = p[i+1:]
+	}
+	return []string{"*", "**", "*/*", "b/*", "*/b", "?", "", ".", "..", "../*", "/", "_catalog", "catalog", "registry",
+		p, p + "/", p + "/*", p + "/b/c", p + "ey", "x/" + p, "x" + p, "*/" + p, last, strings.ToUpper(p), strings.ToLower(p) + "/b", "repository:b/c:pull", "b/c:pull", "\x00", "%2a"}
+}
+
 func sampleOp(m string, repo, repo2 string, variant int) filt.Op {
 	op := filt.Op{M: m, Repo: S(repo)}
 	dg := someDigest
@@ -803,6 +817,42 @@ func scopeClass(sc *filt.Scope) string {
 	return "no-repository"
 }
 
+// scopeNameClass says what the repository name of a scope entry reads as under prefix p.
+func scopeNameClass(p, n string) string {
+	switch {
+	case n == "":
+		return "empty"
+	case n == "*":
+		return "star"
+	case strings.ContainsAny(n, "*?"):
+		return "other-wildcard"
+	case n == "." || n == ".." || strings.HasPrefix(n, "../") || strings.Contains(n, "/../") || strings.HasSuffix(n, "/.."):
+		return "dots"
+	case n == "_catalog" || n == "catalog" || n == "registry":
+		return "catalog-like"
+	case p != "" && n == p:
+		return "the-prefix"
+	case p != "" && strings.HasPrefix(n, p+"/"):
+		return "under-the-prefix"
+	case p != "" && strings.HasPrefix(n, p):
+		return "starts-with-the-prefix"
+	case p != "" && strings.HasSuffix(n, p):
+		return "ends-in-the-prefix"
+	}
+	return "plain"
+}
+
+func countScopeNames(out *hx.Out, p string, sc *filt.Scope) {
+	if sc == nil {
+		return
+	}
+	for _, it := range sc.Items {
+		if it.Type == "repository" {
+			out.Count("scope-repository-name:" + scopeNameClass(p, string(it.Resource)))
+		}
+	}
+}
+
 // scopeRel says how the scope of a call stands to the scope of the call before it.
 func scopeRel(a, b *filt.Scope) string {
 	if a == nil || b == nil || a.Unlimited || b.Unlimited || len(a.Items) == 0 || len(b.Items) == 0 {
@@ -893,6 +943,17 @@ func main() {
 					}
 				}
 				out.Count(fmt.Sprintf("views-alive-together:%d", 1+len(in.Views)))
+			}
+			// what the repository names of the scope entries read as, under the view of the call
+			if len(in.Ctxs) == 0 {
+				countScopeNames(out, string(in.Prefix), in.Scope)
+			}
+			for _, oc := range in.Ctxs {
+				vp := string(in.Prefix)
+				if oc.View > 0 && oc.View <= len(in.Views) {
+					vp = string(in.Views[oc.View-1])
+				}
+				countScopeNames(out, vp, oc.Scope)
 			}
 			if len(in.Warm) > 0 {
 				out.Count("seq:after-earlier-calls-on-the-view")
@@ -985,7 +1046,7 @@ func main() {
 			return &filt.Scope{Items: []filt.RS{}}
 		case 6:
 			// names that sort differently once prefixed, the empty repository name
-			return &filt.Scope{Items: []filt.RS{rs("repository", "", "pull"), rs("repository", n2, "push"), rs("repository", n, "*"), rs("registry", n, "pull"), rs("Repository", n, "pull")}}
+			return &filt.Scope{Items: []filt.RS{rs("repository", "", "pull"), rs("repository", n2, "push"), rs("repository", n, "*"), rs("registry", n, "pull"), rs("Repository", n, "pull"), rs("repository", "*", "pull")}}
 		default:
 			return &filt.Scope{Items: []filt.RS{rs("registry", "catalog", "*"), rs("zzz", "../x", "pull")}}
 		}
@@ -1199,7 +1260,11 @@ func main() {
 			&filt.Scope{Items: []filt.RS{rs("registry", "catalog", "*")}},
 			&filt.Scope{Items: []filt.RS{rs("repository", n, "pull"), rs("registry", "catalog", "*")}},
 			&filt.Scope{Items: []filt.RS{rs("repository", n, "pull"), rs("repository", n, "push")}},
-			&filt.Scope{Items: []filt.RS{rs("other", n, "pull")}})
+			&filt.Scope{Items: []filt.RS{rs("other", n, "pull")}},
+			// names that read as something else: a wildcard; the catalog and dots; with n
+			&filt.Scope{Items: []filt.RS{rs("repository", "*", "pull")}},
+			&filt.Scope{Items: []filt.RS{rs("repository", "_catalog", "*"), rs("repository", "..", "pull"), rs("repository", "**", "push")}},
+			&filt.Scope{Items: []filt.RS{rs("repository", n, "pull"), rs("repository", "*", "pull")}})
 	}
 	type viewCfg struct {
 		p     string
@@ -1276,6 +1341,62 @@ func main() {
 			}
 		}
 	}
+	// ---- repository names in the SCOPE that look special: the rewrite must treat every
+	// repository entry alike, whatever its name reads as (a wildcard, nothing, dots, the
+	// catalog, the prefix itself, a name already under the prefix, a name ending in it, a
+	// sibling sharing its text, the name of the call). Every such name x every method x
+	// views built in one step and as views of views; the entry alone, among others, under a
+	// known, an unknown, the wildcard and the empty action, and next to an entry of another
+	// resource type with the same name (which must stay as it is). ----
+	{
+		type vc struct {
+			p     string
+			stack []S
+		}
+		views := []vc{{"a", nil}, {"foo", nil}, {"foo/bar", nil}, {"a/b/c", nil}, {"Foo", nil}, {"foo/bar", []S{"foo", "bar"}}, {"a/a", []S{"a", "a"}}}
+		for _, v := range views {
+			for si, sn := range specialScopeNames(v.p) {
+				for mi, m := range filt.Methods {
+					k++
+					var sc *filt.Scope
+					switch (si + mi) % 5 {
+					case 0:
+						sc = &filt.Scope{Items: []filt.RS{rs("repository", sn, "pull")}}
+					case 1:
+						sc = &filt.Scope{Items: []filt.RS{rs("repository", sn, "*"), rs("repository", "b/c", "pull"), rs("registry", "catalog", "*")}}
+					case 2:
+						sc = &filt.Scope{Items: []filt.RS{rs("repository", "b/c", "push"), rs("repository", sn, "frobnicate")}}
+					case 3:
+						sc = &filt.Scope{Items: []filt.RS{rs("registry", sn, "pull"), rs("repository", sn, "push"), rs("repository", sn, "pull"), rs("other", sn, "pull")}}
+					default:
+						sc = &filt.Scope{Items: []filt.RS{rs("repository", sn, ""), rs("repository", "d", "pull")}}
+					}
+					add(input{Kind: "hist", Prefix: S(v.p), Stack: v.stack, Scope: sc, Hist: []filt.Op{sampleOp(m, "b/c", "d", k)},
+						Backend: backendCfg{Fail: k%5 == 0, List: shortListing(v.p)}}, "enum-scope-names")
+				}
+			}
+			// the special name is also the name of the call (and of the mount's other side)
+			for si, sn := range specialScopeNames(v.p) {
+				m := nthMethod(si)
+				k++
+				add(input{Kind: "hist", Prefix: S(v.p), Stack: v.stack, Scope: &filt.Scope{Items: []filt.RS{rs("repository", sn, "pull"), rs("repository", "d", "push")}},
+					Hist: []filt.Op{sampleOp(m, sn, "d", k), sampleOp("MountBlob", "d", sn, k)}, Backend: backendCfg{List: shortListing(v.p)}}, "enum-scope-names")
+			}
+		}
+		// per-call contexts: a special name comes and goes between the calls of one view
+		for vi, v := range views[:4] {
+			sns := specialScopeNames(v.p)
+			for si, sn := range sns {
+				k++
+				sn2 := sns[(si+3)%len(sns)]
+				x := &filt.Scope{Items: []filt.RS{rs("repository", sn, "pull")}}
+				y := &filt.Scope{Items: []filt.RS{rs("repository", "b/c", "pull"), rs("repository", sn2, "pull")}}
+				h := []filt.Op{opFor(nthMethod(k), "b/c", "d", k), opFor(nthMethod(k*7+3), "b/c", "d", k), opFor(nthMethod(k*5+1), "d", "b/c", k)}
+				add(input{Kind: "hist", Prefix: S(v.p), Stack: v.stack, Hist: h, Ctxs: []opCtx{{Scope: x}, {Scope: y}, {Scope: x}},
+					Backend: backendCfg{Fail: (k+vi)%5 == 0, List: shortListing(v.p)}}, "enum-scope-names")
+			}
+		}
+	}
 	// promoted methods of the embedded Funcs
 	for _, m := range filt.Methods {
 		add(input{Kind: "promoted", Prefix: "foo", Method: m}, "promoted")
@@ -1302,12 +1423,16 @@ func main() {
 	randName := func() string {
 		if rnd.Intn(3) == 0 {
 			// assemble from elements
-			elems := []string{"b", "c", "..", ".", "", "foo", "B", "other", "a"}
+			elems := []string{"b", "c", "..", ".", "", "foo", "B", "other", "a", "*", "**", "_catalog", "bar", "?"}
 			var parts []string
 			for i := 1 + rnd.Intn(4); i > 0; i-- {
 				parts = append(parts, elems[rnd.Intn(len(elems))])
 			}
 			return strings.Join(parts, "/")
+		}
+		if rnd.Intn(5) == 0 {
+			sp := specialScopeNames(prefixes[rnd.Intn(len(prefixes)-1)])
+			return sp[rnd.Intn(len(sp))]
 		}
 		return names[rnd.Intn(len(names))]
 	}
